@@ -86,6 +86,12 @@ Definition query_select_aliases (q : query) : list (option str) :=
 Definition query_wrap_setops (q : query) : bool :=
   match q with MkQ _ (MkFl _ _ _ _ _ _ _ _ _ _ _ _ _ w _ _ _ _) _ _ _ _ _ _ _ _ _ _ _ _ _ _ _ _ _ _ _ _ _ _ _ _ => w end.
 
+(* an operand with its own ORDER BY / LIMIT / OFFSET *)
+Definition query_has_tail (q : query) : bool :=
+  match q with MkQ _ _ _ _ _ _ _ _ _ _ _ _ _ orderbys _ lim off _ _ _ _ _ _ _ _ _ =>
+    (match orderbys with ONil => false | _ => true end) || (match lim with NoT => false | _ => true end) || (match off with NoT => false | _ => true end)
+  end.
+
 Definition is_nonempty_terms (l : terms) : bool := match l with TNil => false | _ => true end.
 Definition is_some_t (o : oterm) : bool := match o with NoT => false | SomeT _ => true end.
 Definition from_len_gt1 (l : terms) : bool := match l with TCons _ (TCons _ _) => true | _ => false end.
@@ -257,15 +263,35 @@ Fixpoint render (c : ctx) (p : pz) (t : term) {struct t} : res (str * pz) :=
       let bc := ctx_of (query_cls base) in
       let c1 := set_dialect_quote (dialect bc) (quote_char bc) c in
       let set_ctx := set_subquery (query_wrap_setops base) c1 in
-      do (sb, p1) <- render_query set_ctx p base;
+      do (sb, p1) <- render_query (if query_has_tail base then set_subquery true set_ctx else set_ctx) p base;
       do (sops_, p2) <- render_sops set_ctx (query_selects_len base) p1 ops;
       let s := sb ++ sops_ in
       do (sob, p3) <- render_obys c1 (query_select_aliases base) false p2 obs;
       let s := match sob with [] => s | _ => s ++ L " ORDER BY " ++ join [44] sob end in
-      do (ol, p4) <- render_o c1 p3 lim;
-      let s := match ol with Some l => s ++ L " LIMIT " ++ l | None => s end in
-      do (oo, p5) <- render_o c1 p4 off;
-      let s := match oo with Some o => s ++ L " OFFSET " ++ o | None => s end in
+      do (spag, p5) <-
+        (match lim, off with
+         | NoT, NoT => Ok ([], p3)
+         | _, _ =>
+           match dialect c1 with
+           | MSSQL =>
+               do (oo, p4) <- render_o c1 p3 off;
+               do (ol, p5) <- render_o c1 p4 lim;
+               Ok ((match sob with [] => L " ORDER BY (SELECT 0)" | _ => [] end) ++ L " OFFSET " ++
+                   (match oo with Some o => o | None => L "0" end) ++ L " ROWS" ++
+                   (match ol with Some l => L " FETCH NEXT " ++ l ++ L " ROWS ONLY" | None => [] end), p5)
+           | ORACLE =>
+               do (oo, p4) <- render_o c1 p3 off;
+               do (ol, p5) <- render_o c1 p4 lim;
+               Ok ((match oo with Some o => L " OFFSET " ++ o ++ L " ROWS" | None => [] end) ++
+                   (match ol with Some l => L " FETCH NEXT " ++ l ++ L " ROWS ONLY" | None => [] end), p5)
+           | _ =>
+               do (ol, p4) <- render_o c1 p3 lim;
+               do (oo, p5) <- render_o c1 p4 off;
+               Ok ((match ol with Some l => L " LIMIT " ++ l | None => [] end) ++
+                   (match oo with Some o => L " OFFSET " ++ o | None => [] end), p5)
+           end
+         end);
+      let s := s ++ spag in
       let s := paren_if (subquery c1) s in
       Ok (alias_if (with_alias c1) c1 s (if str_truthy alias then alias else Some (L """_table_name""")), p5)
   end
@@ -370,7 +396,7 @@ with render_sops (c : ctx) (nbase : nat) (p : pz) (l : sops) {struct l} : res (s
   match l with
   | SNil => Ok ([], p)
   | SCons op q r =>
-      do (s, p1) <- render c p q;
+      do (s, p1) <- render (match q with TQuery q' => if query_has_tail q' then set_subquery true c else c | _ => c end) p q;
       match q with
       | TQuery q' =>
           if Nat.eqb nbase (query_selects_len q') then
@@ -466,7 +492,13 @@ with render_query (c0 : ctx) (p : pz) (q : query) {struct q} : res (str * pz) :=
                           do (o, p1) <- render_o cc p lim;
                           Ok ((match o with
                                | Some s => (match cls with BMSSQL | BOracle => L " FETCH NEXT " ++ s ++ L " ROWS ONLY" | _ => L " LIMIT " ++ s end)
-                               | None => [] end), p1) in
+                               | None => (* SQLite / MySQL: no OFFSET without LIMIT *)
+                                         match cls, off with
+                                         | BSQLite, SomeT _ => L " LIMIT -1"
+                                         | BMySQL, SomeT _ => L " LIMIT 18446744073709551615"
+                                         | _, _ => []
+                                         end
+                               end), p1) in
     let limit_kw_sql := limit_kw_sql_c c in
     let offset_kw_sql p :=
         match cls with
@@ -483,6 +515,7 @@ with render_query (c0 : ctx) (p : pz) (q : query) {struct q} : res (str * pz) :=
             do (so, p1) <- (if is_some_t lim || is_some_t off then offset_kw_sql p else Ok ([], p));
             do (sl, p2) <- (if is_some_t lim then limit_kw_sql p1 else Ok ([], p1));
             Ok (so ++ sl, p2)
+        | BOracle => do (so, p1) <- offset_kw_sql p; do (sl, p2) <- limit_kw_sql p1; Ok (so ++ sl, p2)
         | _ => do (sl, p1) <- limit_kw_sql p; do (so, p2) <- offset_kw_sql p1; Ok (sl ++ so, p2)
         end in
     let table_sql (cc : ctx) p (o : oterm) := do (x, p1) <- render_o cc p o; Ok (opt_app x, p1) in
